@@ -1606,7 +1606,7 @@ class SuccessionDiagram:
         # in memory.
         node["percolated_petri_net"] = None
 
-        if len(sub_spaces) == self.config["max_motifs_per_node"]:
+        if len(sub_spaces) >= self.config["max_motifs_per_node"]:
             raise RuntimeError(
                 f"Exceeded the maximum amount of stable motifs per node ({self.config['max_motifs_per_node']}; see `SuccessionDiagramConfiguration.max_motifs_per_node`)."
             )
